@@ -35,13 +35,15 @@ SimNext ==
            \/ IMeterUnlock(i) \/ IProvUnlock(i) \/ IStore(i)) /\ Say(<<>>)
        \/ IDelegateMeter(i) /\ Say(<<K(i, "sdk.Meter:" \o M.cur)>>)
        \/ \E x \in Owners : IInst(i, x) /\ Say(<<K(i, "sdk.Inst:" \o x)>>)
-       \/ IReg(i) /\ Say(IF M.unreg[Head(M.registry[M.cur])] = "nil" THEN <<>>
-                         ELSE <<K(i, "sdk.Register:" \o Head(M.registry[M.cur]))>>)
+       \/ IReg(i) /\ Say(LET g == Head(M.registry[M.cur]) IN
+                         IF M.unreg[g] = "nil" THEN <<>>
+                         ELSE <<K(i, "sdk.Register:" \o (IF g \in RefuseInst THEN "?" ELSE g))>>)
   \/ \E c \in Owners :
        \/ OGet(c) /\ Say(IF M.gmp # "global" /\ c \notin Kept THEN <<K(c, "meter"), K(c, "sdk.Meter:" \o MeterOf[c])>> ELSE <<>>)
        \/ OMeter(c) /\ Say(<<K(c, "meter")>> \o (IF M.pdel # "none" THEN <<K(c, "sdk.Meter:" \o MeterOf[c])>> ELSE <<>>))
        \/ OInst(c) /\ Say(<<K(c, "inst")>> \o (IF M.handle[c] # "global" \/ M.mdel[MeterOf[c]] # "none"
                                                 THEN <<K(c, "sdk.Inst:" \o c)>> ELSE <<>>))
+       \/ (OMeterCompute(c) \/ OMeterInsert(c)) /\ Say(<<>>)
        \/ RCall(c) /\ Say(<<>>)
        \/ RLoad(c) /\ Say(<<K(c, "rec:" \o N(c))>>)
        \/ GRegister(c) /\ Say(<<K(c, "register")>> \o (IF M.handle[c] # "global" \/ M.mdel[MeterOf[c]] # "none"
@@ -58,8 +60,12 @@ SimNext ==
   \/ \E u \in TUsers :
        \/ UGet(u) /\ Say(IF T.gtp # "global" /\ u \notin Kept THEN <<K(u, "tracer"), K(u, "sdk.Tracer:" \o TracerOf[u])>> ELSE <<>>)
        \/ UTracer(u) /\ Say(<<K(u, "tracer")>> \o (IF T.pdel # "none" THEN <<K(u, "sdk.Tracer:" \o TracerOf[u])>> ELSE <<>>))
+       \/ (UTracerCompute(u) \/ UTracerInsert(u)) /\ Say(<<>>)
        \/ UCall(u) /\ Say(<<>>)
        \/ ULoad(u) /\ Say(<<K(u, "start:" \o N(u))>>)
+  \/ \E v \in Invokers : \/ VBegin(v) /\ Say(<<K(v, "invoke:1")>>)
+                         \/ VObserve(v) /\ Say(<<K(v, "obs:" \o N(v))>>)
+                         \/ VSkip(v) /\ Say(<<>>)
   \/ \E i \in XI : \/ XOnce(i) /\ Say(<<SK(i)>>)
                    \/ XStore(i) /\ Say(<<>>)
   \/ \E u \in XU : \/ XULoad(u) /\ Say(<<K(u, "use:" \o N(u))>>)
